@@ -143,11 +143,67 @@ theorem run_slotsIn (ins : List (In α)) : ∀ (b : Buf α) (D : List (W × α))
     simp only [SerfModel.EventBuf.run]
     simpa [List.append_assoc] using h2
 
-/-- **A first-time event inside the window is delivered.**  After *any* history
-(no hypothesis on the times), an event that was not delivered before (in
-particular: one the node receives for the first time), whose time is not below the
-join/restart cut-off and lies within the recent-event window `lt + N ≥ clock`
-(clock taken after witnessing the event), is handed to the application. -/
+/-- The buffer length never changes. -/
+theorem handleAll_length (l : List (W × α)) : ∀ (b : Buf α), (handleAll b l).1.slots.length = b.slots.length := by
+  induction l with
+  | nil => intro b; rfl
+  | cons p rest ih =>
+    intro b
+    obtain ⟨t, y⟩ := p
+    simp only [handleAll]
+    rw [ih]
+    unfold handle
+    simp only
+    split
+    · rfl
+    · split
+      · rfl
+      · split
+        · rfl
+        · simp
+
+omit [DecidableEq α] in
+theorem prelude_length (b : Buf α) (e : W) (raise : Bool) :
+    (raiseMin (witnessRemote b e) raise e).slots.length = b.slots.length := by
+  unfold raiseMin witnessRemote
+  split <;> split <;> rfl
+
+theorem run_length (ins : List (In α)) : ∀ (b : Buf α),
+    (SerfModel.EventBuf.run b ins).1.slots.length = b.slots.length := by
+  induction ins with
+  | nil => intro b; rfl
+  | cons i rest ih =>
+    intro b
+    simp only [SerfModel.EventBuf.run]
+    rw [ih]
+    cases i with
+    | gossip lt x => exact handleAll_length _ _
+    | pushPull e raise image =>
+      simp only [stepIn]
+      rw [handleAll_length, prelude_length]
+
+/-- **A first-time event inside the window is delivered** — state form.  In any
+state whose slots only hold delivered events (`SlotsIn`, an invariant of every
+reachable and every intermediate state, with no hypothesis on the times), an event
+that was not delivered before, whose time is not below the cut-off and lies within
+the window `lt + N ≥ clock` (clock taken after witnessing the event) is delivered. -/
+theorem C05_fresh_delivered_state (b : Buf α) (D : List (W × α)) (hs : SlotsIn b D)
+    (hN2 : b.slots.length < 2 ^ 64) (lt : W) (x : α)
+    (hfirst : (lt, x) ∉ D) (hmin : ¬ lt < b.minTime)
+    (hwin : ¬ lt.toNat + b.slots.length < (witness b.clock lt).toNat) :
+    (handle b lt x).2 = .delivered := by
+  rw [C05_delivered_iff]
+  refine ⟨hmin, ?_, ?_⟩
+  · cases hto : tooOld b.slots.length (witness b.clock lt) lt with
+    | false => rfl
+    | true => exact absurd ((tooOld_iff hN2 _ _).1 hto) hwin
+  · intro hmem
+    exact hfirst (hs _ _ _ (slot_of_mem_seenAt _ _ _ _ hmem) x hmem)
+
+/-- **A first-time event inside the window is delivered** — after *any* history
+(gossip and push/pull, any times), for an event arriving by gossip: not delivered
+before (in particular: received for the first time), not below the join/restart
+cut-off, inside the recent-event window. -/
 theorem C05_fresh_delivered (N : Nat) (hN2 : N < 2 ^ 64) (c m : W) (ins : List (In α))
     (lt : W) (x : α)
     (hfirst : (lt, x) ∉ deliveries (Buf.start N c m) ins)
@@ -156,55 +212,43 @@ theorem C05_fresh_delivered (N : Nat) (hN2 : N < 2 ^ 64) (c m : W) (ins : List (
     (handle (SerfModel.EventBuf.run (Buf.start N c m) ins).1 lt x).2 = .delivered := by
   have hs := run_slotsIn ins (Buf.start (α := α) N c m) [] (slotsIn_start N c m)
   have hlen : (SerfModel.EventBuf.run (Buf.start (α := α) N c m) ins).1.slots.length = N := by
-    have : ∀ (ins : List (In α)) (b : Buf α), (SerfModel.EventBuf.run b ins).1.slots.length = b.slots.length := by
-      intro ins
-      induction ins with
-      | nil => intro b; rfl
-      | cons i rest ih =>
-        intro b
-        simp only [SerfModel.EventBuf.run]
-        rw [ih]
-        have hall : ∀ (l : List (W × α)) (b : Buf α), (handleAll b l).1.slots.length = b.slots.length := by
-          intro l
-          induction l with
-          | nil => intro b; rfl
-          | cons p rest ih2 =>
-            intro b
-            obtain ⟨t, y⟩ := p
-            simp only [handleAll]
-            rw [ih2]
-            unfold handle
-            simp only
-            split
-            · rfl
-            · split
-              · rfl
-              · split
-                · rfl
-                · simp
-        cases i with
-        | gossip lt x => exact hall _ _
-        | pushPull e raise image =>
-          simp only [stepIn]
-          rw [hall]
-          unfold raiseMin witnessRemote
-          split <;> split <;> rfl
-    rw [this]; simp [Buf.start]
-  rw [C05_delivered_iff]
-  refine ⟨hmin, ?_, ?_⟩
-  · rw [hlen]
-    cases hto : tooOld N (witness (SerfModel.EventBuf.run (Buf.start N c m) ins).1.clock lt) lt with
-    | false => rfl
-    | true => exact absurd ((tooOld_iff hN2 _ _).1 hto) hwin
-  · intro hmem
-    apply hfirst
-    have := hs _ _ _ (slot_of_mem_seenAt _ _ _ _ hmem) x hmem
-    simpa [deliveries] using this
+    rw [run_length]; simp [Buf.start]
+  apply C05_fresh_delivered_state _ _ hs (by omega) lt x
+  · simpa [deliveries] using hfirst
+  · exact hmin
+  · rw [hlen]; exact hwin
+
+/-- The same for an event arriving inside a push/pull replay: after any history,
+the prelude of `MergeRemoteState` (remote clock witnessed, cut-off possibly raised)
+and the part `pre` of the image replayed before it. -/
+theorem C05_fresh_delivered_in_replay (N : Nat) (hN2 : N < 2 ^ 64) (c m : W) (ins : List (In α))
+    (e : W) (raise : Bool) (pre : List (W × α)) (lt : W) (x : α) :
+    let b0 := (SerfModel.EventBuf.run (Buf.start N c m) ins).1
+    let b1 := handleAll (raiseMin (witnessRemote b0 e) raise e) pre
+    (lt, x) ∉ deliveries (Buf.start N c m) ins ++ b1.2 →
+    ¬ lt < b1.1.minTime →
+    ¬ lt.toNat + N < (witness b1.1.clock lt).toNat →
+    (handle b1.1 lt x).2 = .delivered := by
+  intro b0 b1 hfirst hmin hwin
+  have hs0 := run_slotsIn ins (Buf.start (α := α) N c m) [] (slotsIn_start N c m)
+  have hs1 := handleAll_slotsIn pre _ _ (prelude_slotsIn _ _ e raise hs0)
+  have hlen : b1.1.slots.length = N := by
+    show (handleAll _ pre).1.slots.length = N
+    rw [handleAll_length, prelude_length, run_length]; simp [Buf.start]
+  apply C05_fresh_delivered_state b1.1 _ hs1 (by omega) lt x
+  · simpa [deliveries] using hfirst
+  · exact hmin
+  · rw [hlen]; exact hwin
 
 -- non-vacuity of C05_fresh_delivered: after a history, a new payload at a time still
 -- inside the window is delivered.
 example : (handle (SerfModel.EventBuf.run (α := Nat) (Buf.start 2 1#64 0#64)
     [.gossip 1#64 7, .gossip 3#64 8]).1 2#64 5).2 = .delivered := by decide
+
+-- non-vacuity of C05_fresh_delivered_in_replay: a join push/pull with the cut-off raised to 9
+-- replays (9, 7); a new event at time 10 arriving next in the same replay is delivered.
+example : (handle (handleAll (raiseMin (witnessRemote (SerfModel.EventBuf.run (α := Nat) (Buf.start 2 1#64 0#64)
+    [.gossip 1#64 7]).1 9#64) true 9#64) [(9#64, 7)]).1 10#64 5).2 = .delivered := by decide
 
 /-- **Negation witness (buffer of 2, three messages).**  Event `a` at time 1 is
 delivered; an event at time 2^64−1 (same slot) wraps the event clock to 0 and
